@@ -134,6 +134,42 @@ def guard_atoms(g):
     return acc
 
 
+_NEG = {"Lt": "GtE", "LtE": "Gt", "Gt": "LtE", "GtE": "Lt"}
+_FLIP = {"Lt": "Gt", "LtE": "GtE", "Gt": "Lt", "GtE": "LtE"}
+
+
+def box_constraints(g, positive=True):
+    """Conjunction of atomic comparisons (op, lhs key, rhs key) equivalent to guard g (or its negation), or None if it is
+    not a pure conjunction.  Comparisons are oriented with the point coordinate on the left where possible."""
+    if isinstance(g, bool):
+        return set() if g == positive else None
+    if not isinstance(g, Guard):
+        return None
+    k = g.kind
+    if k == "const":
+        return set() if bool(g.args[0]) == positive else None
+    if k == "not":
+        return box_constraints(g.args[0], not positive)
+    if k == "cmp":
+        op, a, b = g.args[0], g.args[1], g.args[2]
+        if op not in _NEG or not isinstance(a, E) or not isinstance(b, E):
+            return None
+        if not positive:
+            op = _NEG[op]
+        if str(a).startswith(("lo[", "hi[")):
+            a, b, op = b, a, _FLIP[op]
+        return {(op, a.key(), b.key())}
+    if (k == "and" and positive) or (k == "or" and not positive):
+        out = set()
+        for x in g.args:
+            s_ = box_constraints(x, positive)
+            if s_ is None:
+                return None
+            out |= s_
+        return out
+    return None
+
+
 def pathline(ctx):
     ctx.rule("C18.pathline", "get_pathline wiring: integrate from t=0 at final_location towards negative time; fun returns the velocity, "
                              "jac the velocity gradient, both at the solver's point and zero outside the box; terminal strain event; "
@@ -215,6 +251,13 @@ def pathline(ctx):
                 need |= alg.atoms_of(c_)
         gate = [g for g, o, l, fn in new if o[0] == "return" and need <= guard_atoms(g)]
         ctx.ob("C18.pathline", f"{what} gated by a test on all of (point, min, max)", bool(gate), "", loc)
+        want = set()
+        for i_ in range(3):
+            want.add(("GtE", p[i_].key(), lo[i_].key()))
+            want.add(("LtE", p[i_].key(), hi[i_].key()))
+        got_sets = [box_constraints(g) for g in gate]
+        ctx.ob("C18.pathline", f"{what}: the inside-test is min_i <= point_i <= max_i for every coordinate", any(gs == want for gs in got_sets),
+               f"constraints found: {sorted((op, ) for gs in got_sets for op, *_ in (gs or []))[:8]}", loc)
     # event uses the gradient at the same point
     if isinstance(ev[0], FuncVal):
         g0 = len(I.guards)
